@@ -109,7 +109,7 @@ class LibMap:
             em.note_proto("vf_mt19937_next", "unsigned long", ["struct vf_mt19937*"], "std::mt19937::operator()")
             em.callees["vf_mt19937_next"] = "std::mersenne_twister_engine::operator()"
             return "vf_mt19937_next(%s)" % em.addr_of(a0)
-        if ct0.startswith("struct vf_fn"):
+        if ct0.startswith("struct vf_fn") and not ct0.endswith("*"):  # (an iterator over closures is a scalar)
             if op == "()":
                 f = em.paren(em.E(a0))
                 return self.fn_call(em, n, f, args[1:], fnt)
